@@ -109,4 +109,40 @@ theorem extend_registers_source_names (cfg : Cfg) (hk : cfg.extKeepAll = true) (
         rw [hq, hp'] at hpe
         cases hpe
 
+/-- `extend_dir_full` with the registry named -/
+theorem extend_dir_full_reg (cfg : Cfg) (hk : cfg.extKeepAll = true) (ext : Ext) (s : Schema) (h : Heap) (hndT : (s.types.map (·.1)).Nodup) (hnd : (s.dirs.map (·.1)).Nodup)
+    (hread : ∀ e, e ∈ s.dirs → ∃ d, h.readDir e.2 = some d ∧ ∀ x, x ∈ d.args → ∃ g, h.readArg x = some g)
+    (e : String × Addr) (he : e ∈ s.dirs) :
+    ∃ a', lookup (extend cfg ext s h).2.dirs e.1 = some a' ∧
+      DirRelB cfg (extend cfg ext s h).2.types h (extend cfg ext s h).1 h.size e (e.1, a') := by
+  simp only [extend, hk, if_true]
+  generalize hP : allocPlaceholders h ((s.types.filter fun e => !isProtected e.1).map (·.1) ++ ext.newTypes.map (·.1)) = p
+  have hfr0 : FrameX (fun x => h.size ≤ x) h p.1 := by rw [← hP]; exact allocPlaceholdersX _ _ h
+  have hb : ∀ n x, lookup p.2 n = some x → h.size ≤ x ∧ x < p.1.size := by
+    rw [← hP]; exact fun n x hx => allocPlaceholders_lookup _ h n x hx
+  have hinj : ∀ n n' x, lookup p.2 n = some x → lookup p.2 n' = some x → n = n' := by
+    rw [← hP]; exact allocPlaceholders_inj _ h
+  -- the heap in which the directives are rebuilt: only placeholders (≥ h.size) were written so far
+  have f1 := (extendAll_spec cfg ext ((s.types.filter fun e => isProtected e.1) ++ p.2)
+    (if cfg.extInputFieldExtended then (s.types.filter fun e => isProtected e.1) ++ p.2 else s.types ++ ((s.types.filter fun e => isProtected e.1) ++ p.2))
+    p.2 h hinj s.types p.1 (fun n x hx => (hb n x hx).2) hndT).1
+  have f2 := buildNewTypesX ((s.types.filter fun e => isProtected e.1) ++ p.2) p.2 ext.newTypes
+    (extendAll cfg ext ((s.types.filter fun e => isProtected e.1) ++ p.2)
+      (if cfg.extInputFieldExtended then (s.types.filter fun e => isProtected e.1) ++ p.2 else s.types ++ ((s.types.filter fun e => isProtected e.1) ++ p.2))
+      p.2 h p.1 s.types)
+  have fr2 := (hfr0.trans (f1.mono (W' := fun x => h.size ≤ x) (fun x ⟨e, _, hx⟩ => (hb e.1 x hx).1))).trans
+    (f2.mono (W' := fun x => h.size ≤ x) (fun x ⟨e, _, hx⟩ => (hb e.1 x hx).1))
+  have hall := extendDirs_forall2 cfg ((s.types.filter fun e => isProtected e.1) ++ p.2) s.dirs h _ fr2 hread
+  have kf := keepsFrom_of_frameX (buildNewDirsX (fun x => x < (buildNewTypes ((s.types.filter fun e => isProtected e.1) ++ p.2) p.2
+      (extendAll cfg ext ((s.types.filter fun e => isProtected e.1) ++ p.2)
+        (if cfg.extInputFieldExtended then (s.types.filter fun e => isProtected e.1) ++ p.2 else s.types ++ ((s.types.filter fun e => isProtected e.1) ++ p.2))
+        p.2 h p.1 s.types) ext.newTypes).size) cfg ((s.types.filter fun e => isProtected e.1) ++ p.2) ext.newDirs
+      (extendDirs cfg ((s.types.filter fun e => isProtected e.1) ++ p.2) (buildNewTypes ((s.types.filter fun e => isProtected e.1) ++ p.2) p.2
+      (extendAll cfg ext ((s.types.filter fun e => isProtected e.1) ++ p.2)
+        (if cfg.extInputFieldExtended then (s.types.filter fun e => isProtected e.1) ++ p.2 else s.types ++ ((s.types.filter fun e => isProtected e.1) ++ p.2))
+        p.2 h p.1 s.types) ext.newTypes) s.dirs).1)
+  obtain ⟨a', hl, hr⟩ := all2_lookup (fun e e' r => r.1) hall hnd e he
+  exact ⟨a', lookup_append_left' hl, (hr.keep kf).weaken fr2.1⟩
+
+
 end PyGql.Heap.Own
